@@ -377,8 +377,8 @@ func Generator(group int) []byte {
 }
 
 // Scale returns k·P for a compressed point P (k may be negative or zero).
-func Scale(group int, p []byte, k int64) ([]byte, error) {
-	K := big.NewInt(k)
+func Scale(group int, p []byte, k *big.Int) ([]byte, error) {
+	K := new(big.Int).Set(k)
 	neg := K.Sign() < 0
 	K.Abs(K)
 	if group == 1 {
